@@ -43,7 +43,7 @@ CLAIM = dict(
           "byte string given as one chunk, if the reference grammar Spec/LuaLex.v (Lua 5.2 section 3.1 + PICO-8 extensions) "
           "is defined on it, the model lexes it and its token list passes holds_C07, the same predicate the extracted "
           "monitor applies to the implementation (same boundaries, class, decoded string bytes, exact numeric value, "
-          "quote / bracket level, line, column); C07_chunking + C07_lex_agrees_chunks (the same for per-line chunks); C07_step_agrees (one token, every first-byte class); "
+          "quote / bracket level, line, column); C07_chunking + C07_lex_agrees_chunks (the same for per-line chunks); C07_chunking_sep_newline / C07_line_feed_chunk (a line feed after a text of the dialect may come as a chunk of its own: same tokens, positions, error); C07_step_agrees (one token, every first-byte class); "
           "C07_symbols_longest (first match in regenerated table order = longest match) and C07_symbols_same_set; "
           "C07_number_value (exact, all numeral forms incl. 0XA / 0x.8); C07_cover and C07_positions for any chunking, "
           "C07_positions_lua. Tie: extracted model vs implementation field by field (token lists, code, value, string "
